@@ -49,6 +49,7 @@ type Scenario struct {
 	Conf             bool          `json:"c,omitempty"` // the trace is also checked for conformance with the Lean model
 	Tag              string        `json:"t,omitempty"`
 	WaitMs           int           `json:"w,omitempty"`   // liveness bound per wait (default 20000)
+	SubGateFrom      int           `json:"sgf,omitempty"` // the n-th Subscribe call of the scenario (1-based) and all later ones wait for `subgo`
 	FailSubDecorator bool          `json:"fd,omitempty"`  // a router-level subscriber decorator whose Close fails before it reaches the wrapped subscriber
 	Isolate          bool          `json:"iso,omitempty"` // run in a child process: a change under test may panic in a router goroutine
 }
@@ -93,6 +94,18 @@ type run struct {
 
 	subGate chan struct{} // closed by `subgo`: gated Subscribe calls return
 	bound   time.Duration
+	subSeq  int64 // Subscribe calls so far (all subscribers of the scenario)
+}
+
+// gateSubscribe blocks a Subscribe call that the scenario wants slow (a broker round trip) until `subgo`
+func (r *run) gateSubscribe(own bool) {
+	n := atomic.AddInt64(&r.subSeq, 1)
+	if own || (r.sc.SubGateFrom > 0 && int(n) >= r.sc.SubGateFrom) {
+		select {
+		case <-r.subGate:
+		case <-time.After(r.bound + 10*time.Second):
+		}
+	}
 }
 
 func (r *run) newMsg(h int) (*message.Message, int) {
@@ -346,7 +359,7 @@ func Run(sc Scenario) *Result {
 			var sub message.Subscriber
 			var pub message.Publisher
 			if spec.GoChannel {
-				sub = &LogSub{rec: rec, h: h, inner: ps}
+				sub = &LogSub{rec: rec, h: h, inner: ps, sc: rn}
 				pub = &LogPub{rec: rec, h: h, inner: ps, forward: false}
 			} else {
 				subs[h] = &ScriptSub{rec: rec, h: h, sc: rn, LastOnClose: spec.LastOnClose, LastOnCtx: spec.LastOnCtx, IgnoreCtx: spec.IgnoreCtx,
